@@ -175,17 +175,25 @@ def check_c15(v: Verdict, t1_summary, n_unions):
     sub_coq = "(fun a c => existsb (fun p => N.eqb (fst p) a && N.eqb (snd p) c) [" + "; ".join(f"({a}%N, {c}%N)" for a, c in sub_tbl) + "])"
     # systematic first: both spellings of every two-member union with None (Optional[X] is documented as left to the default hook --
     # whatever the position of None), then random unions
+    JSON_SET = [str, bool, int, float, NoneType]
     fixed = []
     for x in [str, int, bool, float, bytes, SA] + list(NEWTYPES)[:2] + [Literal[1, "a"]]:
-        fixed += [Union[None, x], Union[x, None]]
+        fixed += [(Union[None, x], JSON_SET), (Union[x, None], JSON_SET)]
+    # literals whose class is an UNCONFIGURED subclass of a configured member (bool under int, IntSub under int): accepted by value only
+    for lit_u, s in [(Union[Literal[True], int, str], [int, str, NoneType]), (Union[Literal[True, False], int], [int, NoneType]),
+                     (Union[Literal[True], int, str, None], [int, str, NoneType]), (Union[Literal[1], bool, str], [bool, str]),
+                     (Union[Literal[True], float, str], [float, str, int]), (Union[Literal["a"], int], [int, bytes])]:
+        fixed.append((lit_u, s))
     while hist["unions"] < n_unions + len(fixed):
         from_fixed = hist["unions"] < len(fixed)
-        u = fixed[hist["unions"]] if from_fixed else gen_union(rng)
+        u = fixed[hist["unions"]][0] if from_fixed else gen_union(rng)
         if u is None:
             continue
         s_members = rng.sample(CLASSES[:6], rng.randint(2, 6))
-        if rng.random() < 0.3 or from_fixed:
-            s_members = [str, bool, int, float, NoneType]          # the preconfigured JSON converters' set
+        if rng.random() < 0.3:
+            s_members = list(JSON_SET)          # the preconfigured JSON converters' set
+        if from_fixed:
+            s_members = list(fixed[hist["unions"]][1])
         if rng.random() < 0.2 and IntSub not in s_members:
             s_members.append(IntSub)
         conv = make_converter(rng, s_members)
